@@ -108,7 +108,7 @@ def equiv(l0: LT, l1: LT, l2: int, l3: int, n: int, b0: bool, b1: bool, b2: bool
     if STRS is not None:
         l0, l1 = pick(STRS, l0), pick(STRS, l1)
     doc = spines.build(SPINE, [l0, l1, l2, l3, l0, l1], n, [b0, b1, b2])
-    ctx = {"k": ck, "a": [ck, 1], "s": "abc", "o": {"a": 1}}
+    ctx = {"k": ck, "a": [ck, 1], "s": "abc", "o": {"a": 1}, "e": [[], {}, ""]}
     got = sig(C_EXT.finditer(doc, filter_context=ctx))
     if C_STD is not None:
         target = [doc] if WRAP else doc
@@ -116,3 +116,25 @@ def equiv(l0: LT, l1: LT, l2: int, l3: int, n: int, b0: bool, b1: bool, b2: bool
         return ok(why(_same(got, exp, values_only=WRAP), "extension differs from standard spelling", EXT, STD, got, exp))
     exp = _ref(doc, ctx)
     return ok(why(_same(got, exp), "extension differs from documented meaning", EXT, REF, got, exp))
+
+
+def _norm(x: Any) -> Any:
+    """<> is kept as its own operator in the compiled expression: read it as != when comparing structures."""
+    if isinstance(x, tuple):
+        return tuple(_norm(i) for i in x)
+    return "!=" if x == "<>" else x
+
+
+def same_acceptance(ext: str, std: str) -> bool:
+    """Native replay target: the extension spelling is accepted exactly when its standard spelling is, and then
+    compiles to the same structure (aliases are pure re-spellings)."""
+    from vlib import oracle
+
+    def comp(q: str) -> Any:
+        try:
+            return ("ok", _norm(oracle.shape(JSONPathEnvironment().compile(q))))
+        except jsonpath.JSONPathError as e:
+            return ("rejected", None)
+
+    a, b = comp(ext), comp(std)
+    return why(a == b, "alias and standard spelling differ at compile time", ext, a, std, b)
